@@ -42,7 +42,14 @@ def recursive_options(ctx, rule):
         params = func_params(f.node)
         if "options" not in params:
             continue
+        # the builder and the module-level helpers it hands part of the work to (`_build_item(item, options)` calling back)
+        region = [f]
         for c in walk_no_nested(f.node):
+            if isinstance(c, ast.Call) and isinstance(c.func, ast.Name):
+                h = m.functions.get(f"{f.module}.{c.func.id}")
+                if h is not None and h not in region and h.cls is None:
+                    region.append(h)
+        for g_, c in [(g_, c) for g_ in region for c in walk_no_nested(g_.node)]:
             if not isinstance(c, ast.Call):
                 continue
             r = m.resolve_expr(f.module, c.func)
@@ -50,6 +57,12 @@ def recursive_options(ctx, rule):
             if callee == bq:
                 n_rec += 1
                 has = any(k.arg == "options" for k in c.keywords) or any(isinstance(a, ast.Name) and a.id == "options" for a in c.args)
+                if g_ is not f:
+                    # in a helper the options travel under the helper's own parameter name
+                    opt_names = {p_ for p_, a_ in zip(func_params(g_.node), next((x.args for x in walk_no_nested(f.node) if isinstance(x, ast.Call)
+                                  and isinstance(x.func, ast.Name) and x.func.id == g_.node.name), [])) if isinstance(a_, ast.Name) and a_.id == "options"}
+                    has = any(k.arg == "options" and isinstance(k.value, ast.Name) and k.value.id in opt_names | {"options"} for k in c.keywords) \
+                        or any(isinstance(a, ast.Name) and a.id in opt_names for a in c.args)
                 if has:
                     ctx.proved(rule, f.file, f.short, c, f"recursive {callee.rsplit('.', 1)[-1]} keeps options",
                                "the options object is passed to the recursive build call")
